@@ -120,6 +120,7 @@ func NewWorld(seed int64, tr *Trace, hist int, o WorldOpts) (*World, error) {
 	c.Names[w.Team.Addr.String()] = "team"
 	w.Team.Name = "team"
 	w.Gov = authtypes.NewModuleAddress(govtypes.ModuleName).String()
+	c.Names[w.Gov] = "gov"
 	if err := c.App.DisputeKeeper.Params.Set(c.Ctx, disputetypes.Params{TeamAddress: w.Team.Addr.Bytes()}); err != nil {
 		return nil, err
 	}
@@ -327,13 +328,18 @@ func (w *World) findReport(qid []byte, rep sdk.AccAddress) (oracletypes.MicroRep
 
 func (w *World) ProposeDispute(a *Actor, rep oracletypes.MicroReport, cat disputetypes.DisputeCategory, fee int64, fromBond bool, tag string) PhaseResult {
 	r := rep
-	return w.do("ProposeDispute", Rec{"who": a.Name, "rep": w.Name(rep.Reporter), "q": w.QN(rep.QueryId), "cat": int(cat), "fee": NumI64(fee), "bond": fromBond,
+	return w.do("ProposeDispute", Rec{"backers": w.backersOf(rep), "who": a.Name, "rep": w.Name(rep.Reporter), "q": w.QN(rep.QueryId), "cat": int(cat), "fee": NumI64(fee), "bond": fromBond,
 		"rpower": NumU64(rep.Power), "rblock": int(rep.BlockNumber), "rvalue": rep.Value, "tag": tag},
 		&disputetypes.MsgProposeDispute{Creator: a.Addr.String(), Report: &r, DisputeCategory: cat, Fee: coin(fee), PayFromBond: fromBond})
 }
 
 func (w *World) AddFee(a *Actor, id uint64, amt int64, fromBond bool) PhaseResult {
-	return w.do("AddFeeToDispute", Rec{"who": a.Name, "id": int(id), "amt": NumI64(amt), "bond": fromBond},
+	args := Rec{"who": a.Name, "id": int(id), "amt": NumI64(amt), "bond": fromBond, "backers": []string{}, "rep": "none"}
+	if d, err := w.App.DisputeKeeper.Disputes.Get(w.Ctx, id); err == nil {
+		args["backers"] = w.backersOf(d.InitialEvidence)
+		args["rep"] = w.Name(d.InitialEvidence.Reporter)
+	}
+	return w.do("AddFeeToDispute", args,
 		&disputetypes.MsgAddFeeToDispute{Creator: a.Addr.String(), DisputeId: id, Amount: coin(amt), PayFromBond: fromBond})
 }
 
@@ -575,4 +581,26 @@ func (w *World) ValUnjail(v *Val) PhaseResult {
 	})
 	w.emit("ValUnjail", Rec{"val": v.Name}, r)
 	return r
+}
+
+// backersOf lists the delegators recorded in the stake snapshot taken when the (claimed) report was made.
+func (w *World) backersOf(rep oracletypes.MicroReport) []string {
+	out := []string{}
+	ra, err := sdk.AccAddressFromBech32(rep.Reporter)
+	if err != nil {
+		return out
+	}
+	da, err := w.App.ReporterKeeper.Report.Get(w.Ctx, collections.Join(rep.QueryId, collections.Join(ra.Bytes(), rep.BlockNumber)))
+	if err != nil {
+		return out
+	}
+	seen := map[string]bool{}
+	for _, o := range da.TokenOrigins {
+		n := w.Name(sdk.AccAddress(o.DelegatorAddress).String())
+		if !seen[n] {
+			seen[n] = true
+			out = append(out, n)
+		}
+	}
+	return out
 }
